@@ -25,7 +25,7 @@ CLAIMS = {
  "C06": ("forward() and receive() executed symbolically: per read / per DATA packet exactness, header and payload length fields, order, single write, no invented bytes; sizes around 0,1,2,255,4085,4086,65535,65536 (thorough 256,4087,70000); K-packet DATA/KEEPALIVE streams through the packet loop; the real LegacyPKT/WSPKT transports over a modelled peer (stalls, resets, write deadlines, message types).",
          "6.C06", "net.Conn / gorilla Conn are contract models (DESIGN 6.C06); whole-stream exactness follows from per-packet exactness plus C08 framing (paper argument); multi-MiB streams and interleaving of the two directions are outside."),
  "C07": ("One arbitrary packet on tunnel A from an arbitrary phase while a fully symbolic tunnel B is registed: B's phase, identity, token host, address, transports, backend and registry entry and the shared Gateway are asserted unchanged; HandleGatewayProtocol run for two requests with symbolic connection ids and kinds shows connections share a tunnel only under equal ids.",
-         "6.C07", "2 tunnels, 1 step; 3..64 tunnels and real scheduling are not explored (commutation of disjoint steps is a paper argument); go-cache is a contract stub."),
+         "6.C07", "2 tunnels, 1 step; 3..64 tunnels and real scheduling are not explored (commutation of disjoint steps is a paper argument); go-cache is a contract stub; two different PAA tokens presented in a row bind each tunnel to its own token only (VP_C07_cookie_isolation)."),
  "C08": ("Tunnel.Read/readMessage/readHeader run on every segmentation shape of k<=2 (3) packets: whole, two-fragment at every cut, three-fragment, coalesced, oversize first fragment, every combination of 2 (3) cuts of the whole stream independent of packet boundaries, and a single arbitrary read with all 2^32 length-field values; the legacy chunked body through the real NewLegacy/ReadPacket.",
          "6.C08", "Transport stub per Appendix C; bodies <= 2 (6) bytes; the three segmentation defects found here (split3, coalesce, bigfrag) were repaired in 1717b2e and are now plain assertions; net/http's chunked reader is interpreted for the legacy IN body (VP_C08_legacy_chunks); gorilla's websocket framing is outside."),
  "C09": ("Lockset analysis over the executor's heap-access logs: handler threads of two tunnels and their relay goroutines (cooperative scheduler: goroutines switch where the running one blocks) - any pair of accesses to Tunnel/Gateway/registry/client-writer state from different threads with a write, no common sync.Mutex and no spawn order is a violation, replayed natively under the Go race detector.",
@@ -38,7 +38,7 @@ CLAIMS = {
          "6.C12", "RDP text rendering (reflection) is stubbed (see C19); strings <= 2 bytes, <= 2 (3) host entries; assumes the IdP userinfo subject equals the session user name (DESIGN 7.14)."),
  "C13": ("HandleCallback executed over every failure point (state, code exchange, id_token, verification, claims, user-name claims) with contract stubs for go-cache/oauth2/go-oidc/json: an authenticated identity reaches the session store only if every step succeeded and a non-empty user-name claim exists; identity field mapping of Marshal/Unmarshal restored for all ten fields.",
          "6.C13", "securecookie integrity, the file store, ID-token cryptography and go-cache's expiry behaviour are contracts, not decided."),
- "C14": ("K<=3 (4) NTLM requests over two session ids (negotiate / authenticate with symbolic user / undecodable / non-NTLM / empty), real NTLMAuth + ntlmContext + database code and real go-ntlm parsers, the cryptographic verdict a symbolic predicate per (message, session): authenticated implies negotiate earlier in the same live context, configured non-empty password, proof against that session's challenge, exact user name; contexts dropped on error/success; completeness.",
+ "C14": ("K<=3 (4) NTLM requests over three session ids (two differing by a trailing blank) (negotiate / authenticate with symbolic user / undecodable / non-NTLM / empty), real NTLMAuth + ntlmContext + database code and real go-ntlm parsers, the cryptographic verdict a symbolic predicate per (message, session): authenticated implies negotiate earlier in the same live context, configured non-empty password, proof against that session's challenge, exact user name; contexts dropped on error/success; completeness.",
          "6.C14", "NTLMv2 cryptography is the 'proves' contract; randomness of the challenge and gRPC are outside; user names are 2 ASCII characters."),
  "C15": ("security.UserInfo / GenerateUserToken around go-jose contract stubs in both key modes and the no-encryption-key corner, and web.TokenInfo statuses (405/400/403/200, nothing disclosed on refusal).",
          "6.C15", "Confidentiality, per-segment mutation and cross-mode rejection inside go-jose are contracts."),
